@@ -6,13 +6,13 @@ from check import canon_exc, hx
 from rpcfmt import jo
 
 MANIFEST = {
-    "text": "Lean theorems: round trips header_roundtrip / secTrailer_roundtrip / syntax_roundtrip / command_roundtrip / floor_roundtrip (decode(encode m) = m for well-formed values), termination measures vtCommands_steps / towers_steps (the repaired decoder loops consume input on every iteration, so work is bounded by the length); the BindAck / BindNak padding and both tower paddings are regenerated from source and re-proved; every pack/unpack of the eight PDU types, security trailers, verification-trailer commands, floors, ept_map and its reply is tied to the model by correspondence on generated messages (0..8 contexts × 0..4 transfer syntaxes, secondary addresses of every length mod 4, 0..6 results, auth values, command lists, towers covering every residue mod 8) and, for termination, on every truncation of every valid message plus random strings under a line-event budget; whole-PDU round trips proved for every PDU type the client sends or accepts — bind / alter_context, bind_ack / alter_context_resp (every secondary-address length), request (with and without object UUID), response, fault — with and without a security trailer (response_roundtrip, request_roundtrip, fault_roundtrip, bindAck_roundtrip, bind_roundtrip over context_rt / result_rt), and verification trailers (command_rt, vt_roundtrip: every command type, exactly the last carrying END)",
+    "text": "Lean theorems: round trips header_roundtrip / secTrailer_roundtrip / syntax_roundtrip / command_roundtrip / floor_roundtrip (decode(encode m) = m for well-formed values), termination measures vtCommands_steps / towers_steps (the repaired decoder loops consume input on every iteration, so work is bounded by the length); the BindAck / BindNak padding and both tower paddings are regenerated from source and re-proved; every pack/unpack of the eight PDU types, security trailers, verification-trailer commands, floors, ept_map and its reply is tied to the model by correspondence on generated messages (0..8 contexts × 0..4 transfer syntaxes, secondary addresses of every length mod 4, 0..6 results, auth values, command lists, towers covering every residue mod 8) and, for termination, on every truncation of every valid message plus random strings under a line-event budget; whole-PDU round trips proved for every PDU type the client sends or accepts — bind / alter_context, bind_ack / alter_context_resp (every secondary-address length), request (with and without object UUID), response, fault, bind_nak — with and without a security trailer (response_roundtrip, request_roundtrip, fault_roundtrip, bindAck_roundtrip, bind_roundtrip over context_rt / result_rt), and verification trailers (command_rt, vt_roundtrip: every command type, exactly the last carrying END)",
     "note": "Trusted: Lean kernel; hand-written model (differential tie + padding kernels); Python enum membership tests modelled as range predicates",
     "technique": "Lean 4 proof (round trips, decreasing-measure termination) + kernel extraction + codec/truncation correspondence under a step budget",
 }
 THEOREMS = ["DpapiNg.C12.header_roundtrip", "DpapiNg.C12.secTrailer_roundtrip", "DpapiNg.C12.syntax_roundtrip", "DpapiNg.C12.vtCommands_bounded", "DpapiNg.C12.towersUnpack_bounded", "DpapiNg.C12.tower_padding_aligned", "DpapiNg.C12.bindAck_padding_aligned",
             "DpapiNg.C12.response_roundtrip", "DpapiNg.C12.request_roundtrip", "DpapiNg.C12.fault_roundtrip", "DpapiNg.C12.bindAck_roundtrip",
-            "DpapiNg.C12.bind_roundtrip", "DpapiNg.C12.context_rt", "DpapiNg.C12.result_rt", "DpapiNg.C12.command_rt", "DpapiNg.C12.vt_roundtrip"]
+            "DpapiNg.C12.bind_roundtrip", "DpapiNg.C12.context_rt", "DpapiNg.C12.result_rt", "DpapiNg.C12.command_rt", "DpapiNg.C12.vt_roundtrip", "DpapiNg.C12.bindNak_roundtrip"]
 RULE = ("well-formed messages of all 8 PDU types (context lists 0..8, transfer syntaxes 0..4, sec_addr of every length mod 4, 0..6 results, object UUID on/off, auth values 0..64), "
         "security trailers, verification trailers (command lists), floors, ept_map requests and replies (0..6 towers, floor payloads covering every tower-length residue mod 8); "
         "termination: every truncation of every generated message + random byte strings ≤ 64 KiB under a dpapi_ng line-event budget of 40·len+4000; distinct by op line")
